@@ -65,7 +65,7 @@ theorem rw_respects (hd : env.deliver = recDeliver) : Respects env (RW : RS σ _
     rw [h.1]
     simp [deliveries]
   contract := contract_of_prims env RW_pre
-    (fun f hf rs => ⟨(hf rs.st).2, [], by simp [M.modify], by simp [M.modify, deliveries]⟩)
+    (fun f hf rs => ⟨(hf rs.st).2.1, [], by simp [M.modify], by simp [M.modify, deliveries]⟩)
     (fun k o i e r rs => ⟨rfl, [.cond k o i e r], rfl, by simp [M.emit, deliveries]⟩)
 
 /-- **Each listener, each meta-event, once, in order** — for every outcome of the call: with
